@@ -156,8 +156,15 @@ def check_njit(fn):
                 raise Unsupported(f"{FN}: `{kw.arg}=` may change the semantics")
 
 
+_SOURCE_OVERRIDE = None  # self-test: a rewritten source text instead of the file
+
+
+def module():
+    return ast.parse(_SOURCE_OVERRIDE) if _SOURCE_OVERRIDE is not None else parse(SRC)
+
+
 def extract():
-    fn = find_function(parse(SRC), FN)
+    fn = find_function(module(), FN)
     check_njit(fn)
     params = [a.arg for a in fn.args.args]
     if params[:2] != list(ARRAYS) or len(params) != 3:
@@ -412,7 +419,7 @@ def ev_cell(e, vec, sel, j):
 def extract_whole():
     """the whole function: the eye branch, the connection scan, the closure nest"""
     x = extract()
-    fn = find_function(parse(SRC), FN)
+    fn = find_function(module(), FN)
     body = [s for s in fn.body if not (isinstance(s, ast.Expr) and isinstance(getattr(s, "value", None), ast.Constant))]
     depth = fn.args.args[2].arg
     top = [s for s in body if isinstance(s, ast.If)][0]
@@ -566,6 +573,89 @@ def render(x) -> str:
             lines.append(f"example : createConnectedGraph {len(bl)} {lean_fun(bl)} {lean_fun(br)} {depth} = {rhs} := by decide +kernel")
     lines += ["", "end Pandora.Generated.KernelsRegul"]
     return "\n".join(lines) + "\n"
+
+
+# ---- self-test: rewrites of the present source that must be REFUSED, and rewrites that must read as the same function
+REFUSED = [
+    ("row copy dropped (the connection matrix would be updated in place)", "list_lines = connection_graph[i, :].copy()", "list_lines = connection_graph[i, :]"),
+    ("selection copy dropped", "new_points = connection_graph[list_lines, :].copy()", "new_points = connection_graph[list_lines, :]"),
+    ("store of another cell", "connection_graph[i, k] = connection_graph[k, i] = True", "connection_graph[i, k] = connection_graph[k, k] = True"),
+    ("store of False", "connection_graph[i, k] = connection_graph[k, i] = True", "connection_graph[i, k] = connection_graph[k, i] = False"),
+    ("step in the scan range", "for k in range(i + 1, n_segments):", "for k in range(i + 1, n_segments, 2):"),
+    ("lower bound not i + c", "for k in range(i + 1, n_segments):", "for k in range(depth, n_segments):"),
+    ("call in a condition", "if border_left[k, 0] == row_i:", "if abs(border_left[k, 0]) == row_i:"),
+    ("float literal in a condition", "if border_left[k, 0] > row_i + 1:", "if border_left[k, 0] > row_i + 1.5:"),
+    ("else arm in the scan", "                    break\n", "                    break\n                else:\n                    pass\n"),
+    ("diagonal not set", "            aggregated_graph[i, i] = 1\n", ""),
+    ("diagonal set to 0", "aggregated_graph[i, i] = 1", "aggregated_graph[i, i] = 0"),
+    ("cell loop reads another cell", "np.bitwise_or(new_points[:, j].any(), list_lines[j])", "np.bitwise_or(new_points[:, j].any(), list_lines[i])"),
+    ("iteration bound not the depth", "for _ in range(1, depth):", "for _ in range(1, n_segments):"),
+    ("identity branch changed", "np.eye(n_segments, dtype=np.bool_)", "np.ones((n_segments, n_segments), dtype=np.bool_)"),
+    ("depth test changed", "if depth == 0:", "if depth == 1:"),
+    ("fastmath", 'parallel=literal_eval(os.environ.get("PANDORA_NUMBA_PARALLEL", "True")))\ndef create_connected_graph',
+     'parallel=literal_eval(os.environ.get("PANDORA_NUMBA_PARALLEL", "True")), fastmath=True)\ndef create_connected_graph'),
+]
+SAME = [
+    ("commuted comparisons, `and`", [("if border_left[k, 0] == row_i:", "if row_i == border_left[k, 0]:"),
+                                     ("if border_left[k, 0] > row_i + 1:", "if 1 + row_i < border_left[k, 0]:"),
+                                     (") & (border_right[k, 1]", ") and (border_right[k, 1]")]),
+    ("`|`, commuted or, n for shape[0]", [("np.bitwise_or(new_points[:, j].any(), list_lines[j])", "list_lines[j] | new_points[:, j].any()"),
+                                         ("for j in prange(connection_graph.shape[0]):", "for j in range(n_segments):")]),
+]
+
+
+def selftest():
+    """-> list of problems (empty: every rewrite of REFUSED raises Unsupported, every rewrite of SAME reads as the same function)"""
+    global _SOURCE_OVERRIDE
+    import os
+    import random
+
+    from .common import REPO
+
+    with open(os.path.join(REPO, SRC), encoding="utf-8") as f:
+        text = f.read()
+    problems = []
+    try:
+        base = extract_whole()
+    except Unsupported:
+        return []  # the present source is outside the subset: reported by generate()
+    rng = random.Random(5)
+    cases = []
+    for _ in range(40):
+        n = rng.randint(0, 6)
+        segs = sorted((rng.randint(0, 3), rng.randint(0, 5), rng.randint(0, 3)) for _ in range(n))
+        cases.append(([[r, c] for r, c, _ in segs], [[r, c + w] for r, c, w in segs], rng.randint(0, 3)))
+    try:
+        for why, a, b in REFUSED:
+            if text.count(a) != 1:
+                continue  # the present source is itself a rewrite: this entry does not apply
+            _SOURCE_OVERRIDE = text.replace(a, b)
+            try:
+                extract_whole()
+                problems.append(f"accepted a construct that must be refused: {why}")
+            except Unsupported:
+                pass
+            except SyntaxError as exc:
+                problems.append(f"self-test rewrite is not Python ({why}): {exc}")
+        for why, reps in SAME:
+            t = text
+            if any(t.count(a) != 1 for a, _ in reps):
+                continue
+            for a, b in reps:
+                t = t.replace(a, b)
+            _SOURCE_OVERRIDE = t
+            try:
+                x = extract_whole()
+            except Unsupported as exc:
+                problems.append(f"refused a harmless rewrite ({why}): {exc}")
+                continue
+            for bl, br, d in cases:
+                if evaluate_whole(x, bl, br, d) != evaluate_whole(base, bl, br, d):
+                    problems.append(f"harmless rewrite ({why}) reads as another function on {bl} {br} depth {d}")
+                    break
+    finally:
+        _SOURCE_OVERRIDE = None
+    return problems
 
 
 def generate():
